@@ -4,7 +4,7 @@ import hashsigs
 
 RULE = ("counter hook (the real CompressedUsedLeafsIndexes::to / increment and HssPrivateKey::get_lifetime) over height tuples of length 1..8 over "
         "{2(hook),5,10,15,20,25} (quick: seeded sample; thorough: all tuples up to length 4 and a sample beyond) x counters 0, 1, each radix boundary +-1, last, "
-        "last+1, random; tall lists (total height >= 64) included; oracle: independent mixed-radix computation; end-to-end successor states (counter+1 / the exact wiped form) on six affordable keys")
+        "last+1, random; tall lists (total height >= 64) included; oracle: independent mixed-radix computation; end-to-end successor states (counter+1 / the exact wiped form) on six affordable keys; try_sign as well")
 ASSUMPTIONS = ["how hash-sigs reads the 8-byte counter is checked against the cisco hash-sigs tool shipped in the repository (tests/demo) for SHA-256/32 keys with mixed heights H5/H10: "
                "leaf indices in its signatures and the key file it writes back, for counters at and around radix boundaries"]
 
@@ -78,10 +78,11 @@ def run(ctx):
         N = 1 << sum(hts)
         for cnt in sorted({0, N - 2, N - 1, (1 << hts[-1]) - 1}):
             e2e.append(Case(sign_line(H, sk_blob(H, ps, seed, cnt), b"successor"), "sign/successor-state", {"H": H, "ps": ps, "seed": seed, "c": cnt, "N": N}))
+            e2e.append(Case(trysign_line(H, sk_blob(H, ps, seed, cnt), b"successor"), "trysign/successor-state", {"H": H, "ps": ps, "seed": seed, "c": cnt, "N": N}))
     for c, a, b in ctx.both(e2e, None):
         m = c.meta
         exp = (bytes(8) + b"\xff" * 8 + bytes(HASHES[m["H"]])) if m["c"] + 1 >= m["N"] else sk_blob(m["H"], m["ps"], m["seed"], m["c"] + 1)
-        if fields(a).get("cb") != exp.hex():
+        if fields(a).get("cb", fields(a).get("sk")) != exp.hex():
             ctx.fail("the successor of a counter is not counter+1 / the wiped state after the last leaf", [c.line], str(fields(a).get("cb")), exp.hex())
     for c, a, b in ctx.both(cases, None):
         hs, cnt = c.meta["hs"], c.meta["c"]
